@@ -143,4 +143,20 @@ def run(out, tier, seed):
                         jobs.append(make_job(pth, g, gi, "plain", vias=["sparql", "triples"] if not inv else ["sparql"],
                                              ends=ENDS[:8] + [(["n4"], []), ([], ["n4"])]))
     out.exhaustive = not quick
+    # histories: the same path asked again after the graph was edited in place, size unchanged (one triple replaced) - the relation a path
+    # denotes is a function of the graph as it is now
+    I2 = lambda x: {"op": "iri", "iri": x}
+    HP = [{"op": "plus", "arg": I2("p1")}, {"op": "star", "arg": I2("p1")}, {"op": "seq", "args": [I2("p2"), {"op": "plus", "arg": I2("p1")}]}, {"op": "inv", "arg": {"op": "plus", "arg": I2("p1")}},
+          {"op": "plus", "arg": {"op": "alt", "args": [I2("p1"), I2("p2")]}}, {"op": "opt", "arg": I2("p1")}]
+    EDITS = [("chain4", ("n3", "p1", "n4"), ("n3", "p1", "n1")), ("diamond", ("n2", "p1", "n4"), ("n4", "p1", "n2")), ("two_comp", ("n1", "p1", "n2"), ("n2", "p1", "n3")),
+             ("cycle3", ("n3", "p1", "n1"), ("n3", "p1", "n4")), ("mixed", ("n2", "p2", "n3"), ("n2", "p1", "n3"))]
+    E1 = [(["n1"], []), (["n2"], []), ([], ["n4"]), ([], [])]
+    for hi, (gname, rem, add) in enumerate(EDITS):
+        g1 = list(NAMED[gname])
+        g2 = [t for t in g1 if t != rem] + [add]
+        for pi, pth in enumerate(HP):
+            for via in (["triples", "sparql"] if quick else VIAS):
+                j1, j2, j3 = make_job(pth, g1, hi + pi, "plain", ends=E1, vias=[via]), make_job(pth, g2, hi + pi, "plain", ends=E1, vias=[via]), make_job(pth, g1, hi + pi, "plain", ends=E1[:3], vias=[via])
+                evs = j1["events"] + [dict(j2["events"][0], inplace=True)] + j2["events"][1:] + [dict(j3["events"][0], inplace=True)] + j3["events"][1:]
+                jobs.append({"cfg": {"facade": "graph", "store": "Memory"}, "events": evs})
     out.conform(__name__, TRACE, jobs, nontrivial=nontrivial, chunk=300)
